@@ -293,7 +293,10 @@ func (rt *Runtime) inspectCtx(c *connState, ctx context.Context, where string) {
 		}
 	}
 	prev := "none"
-	if c.cmdCtx != nil && c.cmdCtx != ctx {
+	if c.cmdCtx != nil && (c.cmdCtx != ctx || where == "parse") {
+		// (a parser call always opens a new command: whatever context value an
+		// earlier callback was given - even the very same object, handed out
+		// again - belonged to a command that has ended)
 		// the context a callback of an EARLIER command received (callbacks of one
 		// command share their context value)
 		prev = fmt.Sprint(c.cmdCtx.Err() != nil)
@@ -352,6 +355,13 @@ func (rt *Runtime) validator(ctx context.Context, database, username, password s
 	for i, e := range rt.C.Server.Validator {
 		if e.DB == database && e.User == username && e.PW == password {
 			out = e.Out
+			if e.SleepMs > 0 {
+				d := time.Duration(e.SleepMs) * time.Millisecond
+				simSleepUntil.Store(time.Now().Add(d).UnixNano())
+				simSleepers.Add(1)
+				time.Sleep(d)
+				simSleepers.Add(-1)
+			}
 			if rt.valHit(i) > 0 && e.Next != "" {
 				out = e.Next
 			}
